@@ -286,6 +286,37 @@ func (w *world) openAny(v string) (int, *sess) {
 }
 
 // ---------------------------------------------------------------------------------------------
+// ciphertexts never enter a case: every sealed string the driver sends is replaced, in the Coq
+// term, by a short symbolic name (the model looks at such a string only through its AEAD oracle)
+
+var aliases = map[string]string{}
+
+func aliasOf(v string) string {
+	if len(v) < 120 {
+		return v
+	}
+	if a, ok := aliases[v]; ok {
+		return a
+	}
+	a := fmt.Sprintf("SEALED-%d", len(aliases)+1)
+	aliases[v] = a
+	return a
+}
+
+// aliasText replaces every (query-escaped) occurrence of a known sealed string inside raw text
+func aliasText(t string) string {
+	for v, a := range aliases {
+		if strings.Contains(t, v) {
+			t = strings.ReplaceAll(t, v, a)
+		}
+		if e := url.QueryEscape(v); e != v && strings.Contains(t, e) {
+			t = strings.ReplaceAll(t, e, a)
+		}
+	}
+	return t
+}
+
+// ---------------------------------------------------------------------------------------------
 // requests
 
 type hdr struct{ K, V string }
@@ -340,7 +371,7 @@ func mapCoq(m map[string]string) string {
 	var parts []string
 	for _, s := range slugs {
 		if v, ok := m[s]; ok {
-			parts = append(parts, c.Pair(c.Str(s), c.Str(v)))
+			parts = append(parts, c.Pair(c.Str(s), c.Str(aliasOf(v))))
 		}
 	}
 	return c.List(parts)
@@ -357,7 +388,7 @@ func (q reqSpec) coq() string {
 		hs = append(hs, c.Pair(c.Str(h.K), c.Str(h.V)))
 	}
 	return fmt.Sprintf("(Build_request %s %s %s %s (B.Build_ctype %s %s) %s %s %s %s)", c.Str(q.Host), c.Str(q.Path), c.Str(q.Method),
-		c.Str(q.Query), c.Bool(mt == "application/x-www-form-urlencoded"), c.Bool(cterr != nil), c.Str(q.Body), c.List(hs),
+		c.Str(aliasText(q.Query)), c.Bool(mt == "application/x-www-form-urlencoded"), c.Bool(cterr != nil), c.Str(aliasText(q.Body)), c.List(hs),
 		mapCoq(q.Sess), mapCoq(q.Csrf))
 }
 
@@ -426,7 +457,7 @@ func (t *otab) addOpen(w *world, v string) {
 	}
 	t.seenOpen[v] = true
 	if k, s := w.openAny(v); s != nil {
-		t.open = append(t.open, c.Pair(c.Str(v), c.Pair(c.N(k), s.back())))
+		t.open = append(t.open, c.Pair(c.Str(aliasOf(v)), c.Pair(c.N(k), s.back())))
 	}
 }
 
@@ -707,6 +738,10 @@ type obs struct {
 	Body     string // Coq
 	BodyKind string
 	Hdrs     string
+	SessTouched bool   // some Set-Cookie line for a session cookie was seen
+	SessLive    bool   // ... and the last one stores a value
+	SessVal     string // that value (raw)
+	LastSet     *sess
 	Code     string // raw code value in Location, if any
 	CodeSess *sess
 	JSON     map[string]interface{}
@@ -760,15 +795,20 @@ func (w *world) observe(rec *httptest.ResponseRecorder, f *idp, samplePage bool)
 		for _, s := range slugs {
 			switch ck.Name {
 			case cookieBase + "_" + s:
+				o.SessTouched = true
 				if ck.Value == "" && cookieExpired(ck, now) {
 					o.Sess = append(o.Sess, "F.OpClear")
 					o.SessJSON = append(o.SessJSON, "clear")
+					o.SessLive, o.SessVal, o.LastSet = false, "", nil
 					continue
 				}
 				rs := sess{Email: "<cookie value does not open under the cookie key>"}
 				if ss := open(w.cookie, ck.Value); ss != nil {
 					rs = *ss
 				}
+				o.SessLive, o.SessVal = true, ck.Value
+				x := rs
+				o.LastSet = &x
 				o.Sess = append(o.Sess, "F.OpSet "+rs.flow())
 				o.SessJSON = append(o.SessJSON, rs)
 				o.Sets = append(o.Sets, rs)
